@@ -38,6 +38,17 @@ CLAIMED = {
              "checksum (which bytes are summed, where it is stored); the CRC function itself is C07. Bounds: device <= 8 pages, write <= 3000 B per call.",
         technique="symbolic execution of rustc MIR into SMT (z3), inductive step from arbitrary invariant state; Kani for small-page instances",
         ref="§6 C11"),
+    "C06": dict(
+        engine="mirsym",
+        text="Symbolic execution of the real MIR of blob.rs (Blob::write, Blob::read, section header code, error conversion) over the contract-level "
+             "page layer: from ANY writer state (any earlier content, any cursor residue modulo 1020, any number of pages) and for ANY blob length "
+             "0..5000 and content, z3 decides that the stream becomes old stream + 16-byte header + payload + zero padding with nothing else disturbed, "
+             "that the descriptor is (physical start, length), and on the read side, for ANY device content/validity and ANY descriptor, that Ok(m) "
+             "implies m = length and the bytes are exactly the logical stream from valid pages; no panic on any path.",
+        note="The page layer is represented by its contracts, which C11 decides on the real PagedWriter/PagedReader MIR (assume-guarantee). Trusted: "
+             "mirsym interpreter + std models (io::copy, Take, read_exact, write_all), z3. Image/mask association and XML are outside.",
+        technique="symbolic execution of rustc MIR into SMT (z3) from arbitrary abstract states, per-path claims, native replay of counterexamples",
+        ref="§6 C06"),
 }
 
 NOT_APPLICABLE = {
